@@ -147,9 +147,14 @@ class _Gen:
         return op
 
 
+SCAN_LADDER_QUICK = {0: 1100, 4: 300}
+SCAN_LADDER_THOROUGH = {0: 1100, 4: 300, 8: 4200, 12: 2100}
+
+
 def gen_plan(seed, tier, idx):
     rng = random.Random(seed)
     config = ["single", "preempt", "opgran", "preempt"][idx % 4]
+    scan_n = (SCAN_LADDER_THOROUGH if tier == "thorough" else SCAN_LADDER_QUICK).get(idx)
     n_roots = rng.randint(2, 4)
     names = list(libapi.ROOTS)
     roots = [rng.choice(libapi.PRIVATE_ROOTS)]
@@ -199,6 +204,8 @@ def gen_plan(seed, tier, idx):
     if config == "single":
         n_clients = 1
         lens = [rng.randint(8, 40 if tier == "thorough" else 28)]
+        if scan_n:
+            lens = [rng.randint(3, 6)]
     else:
         n_clients = rng.randint(2, 4)
         lens = [rng.randint(3, 12) for _ in range(n_clients)]
@@ -280,13 +287,32 @@ def gen_plan(seed, tier, idx):
         # family burst: every client issues a request of the same family (BIP85 / paper wallet / extended keys) on the
         # SAME wallet at about the same point of its history, and repeats one later: per-wallet scratch state
         # (a remembered parent, a current version, a current account) must survive concurrent use
-        fam = rng.choice(["bip85", "bip85", "paper", "ext_keys"])
+        fam = rng.choice(["bip85", "bip85", "paper", "ext_keys", "by_path_scan", "by_path_scan"])
         priv = [r for r in roots if libapi.is_private(libapi.ROOTS[r])]
         r = rng.choice(priv)
         apps = [("mnemonic", 12), ("wif", None), ("xprv", None), ("hex", 32), ("pwd", 21), ("mnemonic", 24)]
         rng.shuffle(apps)
         accts = [h for h in g.by_owner["setup"] if g.handles[h]["root"] == r and g.handles[h]["private"]]
-        for c, ops in enumerate(clients):
+        if fam == "by_path_scan":
+            # address scans through by_path: every client walks consecutive indexes under ITS OWN parent (receive
+            # chain, change chain, another account) of the SAME wallet - per-wallet "last parent" shortcuts must cope
+            spec_r = libapi.ROOTS[r]
+            coin = (1 if (spec_r.get("testnet") or spec_r.get("key", "x")[0] in "tuv") else 0) + HARD
+            purpose = rng.choice([44, 49, 84]) + HARD
+            for c, ops in enumerate(clients):
+                parent = [purpose, coin, HARD + (c // 2), c % 2]
+                at = rng.randint(0, min(2, len(ops)))
+                scan = []
+                for k_ in range(rng.randint(2, 4)):
+                    pth = parent + [k_]
+                    nm = "c%d.s%d" % (c, k_)
+                    scan.append({"op": "by_path", "root": r, "s": fmt_path(pth), "path": pth, "out": nm})
+                    g._add(nm, r, pth, True, "c%d" % c)
+                ops[at:at] = scan
+                pth = parent + [7]
+                ops.append({"op": "by_path", "root": r, "s": fmt_path(pth), "path": pth, "out": "c%d.s7" % c})
+                g._add("c%d.s7" % c, r, pth, True, "c%d" % c)
+        for c, ops in enumerate(clients if fam != "by_path_scan" else []):
             def mk_op(k):
                 if fam == "bip85":
                     a = apps[(c + k) % len(apps)]
@@ -297,6 +323,19 @@ def gen_plan(seed, tier, idx):
                 return {"op": "ext_keys", "h": rng.choice(accts) if accts else "%s.m" % r}
             ops.insert(rng.randint(0, min(2, len(ops))), mk_op(0))
             ops.append(mk_op(1))
+    if scan_n and config == "single":
+        # LONG SCAN: a child is obtained, then more than a thousand further indexes are derived from the same node
+        # (an address scan), then the first child is observed again: size-bounded bookkeeping must not change it
+        hubs = [h for h in g.by_owner["setup"] if len(g.handles[h]["path"]) >= 1] or g.by_owner["setup"]
+        hub = rng.choice(hubs)
+        hd = g.handles[hub]
+        ops = clients[0]
+        ops.append({"op": "ckd", "h": hub, "i": 3, "out": "c0.keep"})
+        g._add("c0.keep", hd["root"], hd["path"] + [3], hd["private"], "c0")
+        ops.append({"op": "ext_keys", "h": "c0.keep"})
+        ops.append({"op": "scan", "h": hub, "interval": [0, scan_n]})
+        for vo in ("node", "ext_keys", "str", "pfp"):
+            ops.append({"op": vo, "h": "c0.keep"})
     for c, ops in enumerate(clients):
         for j, op in enumerate(ops):
             op["id"] = "c%d#%d" % (c, j)
@@ -329,8 +368,13 @@ def gen_plan(seed, tier, idx):
             horizon = sum(lens) * 250
             sched["points"] = sorted(rng.randrange(1, horizon) for _ in range(d))
     gran = "line"
-    if config == "preempt" and rng.random() < (0.34 if tier == "thorough" else 0.15):
+    if config == "preempt" and rng.random() < 0.34:
         gran = "opcode"
+        if sched.get("policy") in ("publish", "conflict", "sparse") or rng.random() < 0.5:
+            # instruction granularity is where intra-line windows live: test every access to a field of `self`
+            m_ = rng.choice([1, 2, 2, 3])
+            sched = {"mode": "seeded", "policy": "access", "k": rng.choice([1, 2, 3]), "mod": m_,
+                     "res": rng.randrange(m_), "sched_seed": sched["sched_seed"]}
     cfg = {"config": config, "granularity": gran, "trace_leaf_files": rng.random() < 0.35,
            "step_cap": 200000}
     return {"property": "C13", "seed": seed, "config": cfg,
@@ -439,6 +483,15 @@ class _Exec:
             except Exception as e:
                 obs = libapi.exc_obs(e)
             self.rec(who, j, self.q(root, path, op="children", interval=[a, b]), obs)
+        elif kind == "scan":
+            self.touch[hname] = self.touch.get(hname, 0) + 1
+            a, b = op["interval"]
+            try:
+                ns = node.generate_children(interval=(a, b))
+                obs = {"n": len(ns), "first": libapi.canon_node(ns[0]), "last": libapi.canon_node(ns[-1])}
+            except Exception as e:
+                obs = libapi.exc_obs(e)
+            self.rec(who, j, self.q(root, path, op="scan", interval=[a, b]), obs)
         elif kind in ("addr", "ext_keys", "xpub", "xprv", "str", "fingerprint", "pfp", "node"):
             qq = {k: v for k, v in op.items() if k not in ("h",)}
             try:
@@ -509,7 +562,8 @@ def _run_child(plan):
     d = _lib_files()
     names = list(TRACED) + (LEAF if cfg.get("trace_leaf_files") else [])
     weights = {os.path.join(d, n + ".py"): HOT.get(n, 1.0) for n in names}
-    opfiles = [os.path.join(d, n + ".py") for n in ("bip32", "base_wallet")] if cfg["granularity"] == "opcode" else []
+    opfiles = [os.path.join(d, n + ".py") for n in ("bip32", "base_wallet", "paper_wallet", "bip85")] \
+        if cfg["granularity"] == "opcode" else []
     n = len(plan["clients"])
     b = Baton(n, plan["sched"], weights, opfiles, cfg.get("step_cap", 200000))
     import btc_hd_wallet.__main__  # noqa: make sure every module of the package is loaded
